@@ -369,11 +369,20 @@ impl<'c, Param, Yield, Return> Coroutine<'c, Param, Yield, Return> {
             }
         }
         DefaultStack::new(stack_size).map(|stack| {
+            // RAII guard to ensure the stack info is popped even if
+            // `callback` panics/unwinds during on_stack().
+            struct OnThreadStackGuard;
+            impl Drop for OnThreadStackGuard {
+                fn drop(&mut self) {
+                    _ = STACK_INFOS.try_with(|s| s.borrow_mut().pop_back());
+                }
+            }
             STACK_INFOS.with(|s| {
                 s.borrow_mut().push_back(StackInfo::from(&stack));
             });
+            let guard = OnThreadStackGuard;
             let r = corosensei::on_stack(stack, callback);
-            _ = STACK_INFOS.with(|s| s.borrow_mut().pop_back());
+            drop(guard);
             r
         })
     }
